@@ -87,9 +87,13 @@ fn main() {
             let world = World::new();
             let mut global = Global::default();
             let mut stats = Stats::default();
-            let mut out = std::io::BufWriter::new(
-                std::fs::File::create(out_path).unwrap_or_else(|e| die(&format!("cannot create {}: {}", out_path, e))),
-            );
+            // "-": standard output (used under Miri, whose isolation forbids opening files)
+            let sink: Box<dyn Write> = if out_path == "-" {
+                Box::new(std::io::stdout())
+            } else {
+                Box::new(std::fs::File::create(out_path).unwrap_or_else(|e| die(&format!("cannot create {}: {}", out_path, e))))
+            };
+            let mut out = std::io::BufWriter::new(sink);
             writeln!(out, "SEED {} mode={} features={} start={} count={}", seed, mode, features(), start, count).unwrap();
             let idxs: Vec<u64> = if mode == "p3" {
                 (start..start + count).rev().collect()
